@@ -115,10 +115,6 @@ struct Oracle {
   std::map<uint64_t, bool> stored;            // key -> some emplace returned non-end (for the final census)
 };
 
-struct Plan {
-  std::vector<uint64_t> pool;                 // keys the threads draw from
-};
-
 static int node_id_of_table(const Fixed* t, const Fixed* fixed_head) {
   if (t == fixed_head) return 0;
   if (!g_set) return -1;
